@@ -175,6 +175,11 @@ def phase_table(ctx, f):
                     t.fill_func, t.fill_name, t.store, t.elems, t.key_col, t.key_text = g, st.targets[0].value.id, st, mm.group(1), int(mm.group(2)), norm(st.targets[0].slice)
                     t.fill_defs = gd
     if getattr(t, "store", None) is None:
+        # a dict comprehension keyed by a TSV column keeps the *last* row of a repeated read name
+        for g in cands:
+            for st in walk_own(g.node):
+                if isinstance(st, ast.Assign) and isinstance(st.value, ast.DictComp) and isinstance(st.value.key, ast.Subscript) and isinstance(const_value(st.value.key.slice), int) and isinstance(st.value.value, ast.Call) and repo.resolve_call(g, st.value.value) is not None:
+                    ctx.violated("R20.4", g.where(st), "the per-read table is built by a dict comprehension: for a read listed more than once the last TSV row replaces the earlier ones (the first row must win)", key_of(g, "first-row-wins:dict-comprehension"))
         raise AnalysisError("R20.4", f.where(), "cannot find the per-read table filled from the TSV")
     g = t.fill_func
     ctx.analysed_func(g)
